@@ -41,7 +41,16 @@ func VerifC05Remote() {
 			"base": map[string]any{"extends": map[string]any{"file": ref, "service": "deep"}, "hostname": "mid"}}})
 		main = map[string]any{"services": map[string]any{"web": map[string]any{"extends": map[string]any{"file": "shared/base.yaml", "service": "base"}, "user": "u"}}}
 	}
+	// further lookups by the same file after the first one: another extends into a third directory, and an include
 	viaInclude := vrtChoice("viaInclude", 2) == 1
+	more := !viaInclude && vrtChoice("furtherLookups", 2) == 1
+	if more {
+		vrtYamlFile(w+"/second/b.yaml", map[string]any{"services": map[string]any{"b": map[string]any{"image": "second", "build": map[string]any{"context": "./sctx"}}}})
+		vrtYamlFile(w+"/third/inc.yaml", map[string]any{"services": map[string]any{"inc": map[string]any{"image": "third", "build": map[string]any{"context": "./tctx"}}}})
+		main["services"].(map[string]any)["xapi"] = map[string]any{"extends": map[string]any{"file": "second/b.yaml", "service": "b"}}
+		main["services"].(map[string]any)["aapi"] = map[string]any{"extends": map[string]any{"file": "second/b.yaml", "service": "b"}}
+		main["include"] = []any{"third/inc.yaml"}
+	}
 	if viaInclude {
 		// the same main document, reached through an include of a sub-directory
 		vrtYamlFile(w+"/inc/compose.yaml", main)
@@ -72,4 +81,12 @@ func VerifC05Remote() {
 	web := p.Services["web"]
 	vrtAssert("remote-base-values", web.Image == "deepimg" && web.User == "u")
 	vrtAssert("remote-base-paths-anchored-at-the-loader-directory", web.Build != nil && web.Build.Context == loaders[used].cache+"/dctx")
+	if more && !viaInclude {
+		for _, n := range []string{"xapi", "aapi"} {
+			sv := p.Services[n]
+			vrtAssert("later-local-extends-anchored-at-its-directory", sv.Image == "second" && sv.Build != nil && sv.Build.Context == w+"/second/sctx")
+		}
+		inc := p.Services["inc"]
+		vrtAssert("later-include-anchored-at-its-directory", inc.Image == "third" && inc.Build != nil && inc.Build.Context == w+"/third/tctx")
+	}
 }
